@@ -30,6 +30,7 @@ ASSUMPTIONS = [
     "Excl: sandboxed/userpriv daemons and the request_sandbox_summary exchange (no sandbox binary in this environment)",
     "Excl: daemon deaths that Python observes while the daemon is still exiting after an unknown Python command or an idle-time signal (the harness waits for the exit, then issues the next request)",
     "phase requests use the setup phase (filter_env helper, request_inherit, request_bashrcs prologue) through ebd.run_generic_phase with the session's processor; helper requests are best_version calls; no profile bashrcs",
+    "the 10 s wall-clock timer of is_responsive never expires while a reply is on its way (untimed model; the harness stretches the timer so machine load cannot fire it)",
     "channel capacity 4 lines in the model; real pipes hold 64 KiB, no modelled exchange has more than 8 short lines in flight",
     "free-form die output and metadata key lines are collapsed to one line each before traces are compared",
     "Excl: inherit inside an enumerated gen_ebuild_env run (pkgcore adds a QA notice line to the captured stderr there, which only changes how many stale lines a failing run leaves); the env-dump ordinary session covers inherit + gen_ebuild_env",
